@@ -113,6 +113,8 @@ const SRC_KINDS = {
   updir: (n) => ({ names: ['../src/' + n + '.ts', './' + n + '_part2.ts'], paths: [path.join('/p/src', n + '.ts'), path.join(DIR, n + '_part2.ts')] }),
   absolute: (n) => ({ names: ['/abs/src/' + n + '.ts', '/abs/src/' + n + '_part2.ts'], paths: ['/abs/src/' + n + '.ts', '/abs/src/' + n + '_part2.ts'] }),
   source_root: (n) => ({ names: [n + '.ts', n + '_part2.ts'], sourceRoot: '../root/', paths: [path.join('/p/root', n + '.ts'), path.join('/p/root', n + '_part2.ts')] }),
+  // a stale reference right before the effective one (both trail the last token): the LAST one decides
+  stale_then_effective: (n) => ({ names: [n + '.ts', n + '_part2.ts'], paths: [path.join(DIR, n + '.ts'), path.join(DIR, n + '_part2.ts')], stale: true }),
   source_root_abs: (n) => ({ names: [n + '.ts', n + '_part2.ts'], sourceRoot: '/abs/root', paths: ['/abs/root/' + n + '.ts', '/abs/root/' + n + '_part2.ts'] })
 }
 function mkFile (name, body, layout, chained, srcKind) {
@@ -130,6 +132,7 @@ function mkFile (name, body, layout, chained, srcKind) {
     const segs = lines.map((_, i) => ({ gl: i, gc: 0, src: i < split ? 0 : 1, ol: i + tsShift, oc: 0 }))
     const sk = SRC_KINDS[srcKind || 'relative'](name)
     const M = SM.encodeMap({ sources: sk.names, names: [], segments: segs, file: name + '.js', sourceRoot: sk.sourceRoot })
+    if (sk.stale) code += '//# sourceMappingURL=data:application/json;base64,' + b64(JSON.stringify(SM.encodeMap({ sources: ['stale.ts'], names: [], segments: lines.map((_, i) => ({ gl: i, gc: 0, src: 0, ol: i + 300, oc: 0 })), file: name + '.js' }))) + '\n'
     code += '//# sourceMappingURL=data:application/json;base64,' + b64(JSON.stringify(M)) + '\n'
     orig = { path: sk.paths[0], path2: sk.paths[1], split, shift: tsShift }
   }
